@@ -143,10 +143,8 @@ func runSessions(g *Gen, sessions int, stats map[string]interface{}) {
 			k := g.r.Pick(1, 1, 2, 2, 3, 4)
 			for i := 0; i < k; i++ {
 				switch {
-				case g.r.Chance(1, 7):
-					g.lockTx()
-				case g.r.Chance(1, 12):
-					g.nodeTx()
+				case g.r.Chance(1, 5):
+					g.minerTx()
 				case withContracts && g.r.Chance(3, 5):
 					g.contractTx(i == 0)
 				default:
@@ -208,6 +206,8 @@ func parseScript(s string) Script {
 		p := strings.Split(tok, ":")
 		a := Act{Kind: p[0]}
 		switch p[0] {
+		case "stk", "ustk":
+			a.Val, _ = new(big.Int).SetString(p[1], 10)
 		case "c", "cc", "ac":
 			a.To = parseAddr(p[1])
 			a.Val, _ = new(big.Int).SetString(p[2], 10)
@@ -287,14 +287,21 @@ func replayOne(w *World, line string) {
 			switch t[1] {
 			case "node":
 				w.QueueNode(parseAddr(t[2]))
-			case "lock":
-				n, _ := strconv.ParseUint(t[3], 10, 64)
-				g := &Gen{r: hx.NewRng(uint64(len(line)) + n), w: w}
-				spoil := 0
-				if t[4] == "0" {
-					spoil = 2
+			case "apply":
+				seq, _ := strconv.ParseUint(t[3], 10, 64)
+				typ, _ := strconv.Atoi(t[4])
+				stake, _ := strconv.ParseUint(t[5], 10, 64)
+				if seq > w.minerSeq {
+					w.minerSeq = seq
 				}
-				w.QueueLock(g, parseAddr(t[2]), n, true, spoil)
+				w.QueueApply(parseAddr(t[2]), seq, byte(typ), stake, parseAddr(t[6]), t[7] == "1")
+			case "add":
+				seq, _ := strconv.ParseUint(t[3], 10, 64)
+				d, _ := strconv.ParseUint(t[4], 10, 64)
+				w.QueueAdd(parseAddr(t[2]), seq, d)
+			case "refund":
+				seq, _ := strconv.ParseUint(t[3], 10, 64)
+				w.QueueRefund(parseAddr(t[2]), seq, unhexStr(t[4]), t[5] == "1")
 			case "op":
 				src := parseAddr(t[2])
 				if t[3] == "0" {
@@ -366,10 +373,8 @@ func runSearch(g *Gen, n int, stats map[string]interface{}) {
 			k := g.r.Pick(1, 2, 2, 3)
 			for i := 0; i < k; i++ {
 				switch {
-				case g.r.Chance(1, 8):
-					g.lockTx()
-				case g.r.Chance(1, 12):
-					g.nodeTx()
+				case g.r.Chance(1, 6):
+					g.minerTx()
 				case withContracts && g.r.Chance(3, 5):
 					g.contractTx(i == 0)
 				default:
@@ -380,6 +385,7 @@ func runSearch(g *Gen, n int, stats map[string]interface{}) {
 			for _, q := range qs {
 				if q.isCt {
 					q.mayBurn = ctMayBurn(w, q)
+					q.canUnstake = ctHas(w, q, "ustk")
 				}
 			}
 			res := w.Exec()
@@ -401,11 +407,21 @@ func runSearch(g *Gen, n int, stats map[string]interface{}) {
 			if res.Panic != "" {
 				continue
 			}
-			d := new(big.Int).Sub(res.After, res.Before)
+			d := new(big.Int).Sub(res.WAfter, res.WBefore)
 			key := classify(qs, res)
+			if key == "" && g.r.Chance(1, 5) {
+				// end-of-block path: the wealth must grow by exactly the reward the block escrows
+				wb, wa, rw := g.after()
+				evals++
+				history = append(history, fmt.Sprintf("after %d 0", w.height))
+				if new(big.Int).Sub(wa, wb).Cmp(rw) != 0 {
+					key = "after-block-wealth-mismatch"
+					d = new(big.Int).Sub(new(big.Int).Sub(wa, wb), rw)
+				}
+			}
 			if key != "" && !found[key] {
 				found[key] = true
-				f := Found{Key: key, Desc: fmt.Sprintf("sum of all balances changed by %s wei over one block (%s): %s", d.String(), res.Statuses, strings.Join(lines, " | ")),
+				f := Found{Key: key, Desc: fmt.Sprintf("balances+escrow+stake changed by %s wei over one block (%s): %s", d.String(), res.Statuses, strings.Join(lines, " | ")),
 					Replay: append(append([]string{}, setupLines...), history...)}
 				bs, _ := json.Marshal(f)
 				fmt.Println("FOUND " + string(bs))
@@ -416,12 +432,11 @@ func runSearch(g *Gen, n int, stats map[string]interface{}) {
 }
 
 // classify is the property oracle for one executed block: "" = fine, otherwise a violation class key.
-// The sum of all balances must not grow; it may shrink by exactly the stake locked by successful lock
-// transactions, and (only when a SELFDESTRUCT is reachable) by self-destruct burns.
+// Wealth = all balances + escrow + registry stake. A block of transactions (no reward) must not raise it;
+// it may lower it only through self-destruct burns (when a SELFDESTRUCT is reachable).
 func classify(qs []*QTx, res BlockResult) string {
-	d := new(big.Int).Sub(res.After, res.Before)
-	mayBurn, neg, anyCt := false, false, false
-	locked := new(big.Int)
+	d := new(big.Int).Sub(res.WAfter, res.WBefore)
+	mayBurn, neg, anyCt, canUnstake, anyMiner := false, false, false, false, false
 	nodeFees := new(big.Int)
 	for i, q := range qs {
 		ok := i < len(res.Statuses) && res.Statuses[i] == 's'
@@ -430,12 +445,15 @@ func classify(qs []*QTx, res BlockResult) string {
 			if q.mayBurn {
 				mayBurn = true
 			}
+			if q.canUnstake {
+				canUnstake = true
+			}
 		}
 		if q.feat["negvalue"] {
 			neg = true
 		}
-		if q.feat["lock"] && ok && q.locked != nil {
-			locked.Add(locked, q.locked)
+		if q.feat["miner"] {
+			anyMiner = true
 		}
 		if q.feat["node"] && ok {
 			nodeFees.Add(nodeFees, rpg(10))
@@ -446,36 +464,27 @@ func classify(qs []*QTx, res BlockResult) string {
 		switch {
 		case neg:
 			return "mint-negative-transferValue"
+		case canUnstake:
+			return "mint-unstake-refund-exceeds-stake"
 		case anyCt:
 			return "mint-contract-tx"
+		case anyMiner:
+			return "mint-miner-tx"
 		default:
 			return "mint-operator-tx"
 		}
 	case d.Sign() < 0:
 		drop := new(big.Int).Neg(d)
-		if drop.Cmp(locked) == 0 {
-			return ""
-		}
 		if mayBurn {
-			if drop.Cmp(locked) < 0 {
-				return "mint-contract-tx" // less left the ledger than was locked: something was created
-			}
 			return ""
 		}
 		if neg {
 			return "mint-negative-transferValue" // a negative transfer can also destroy value (|a+v|)
 		}
-		if nodeFees.Sign() > 0 && drop.Cmp(new(big.Int).Add(locked, nodeFees)) == 0 {
+		if nodeFees.Sign() > 0 && drop.Cmp(nodeFees) == 0 {
 			return "burn-operator-node-fee"
 		}
-		if drop.Cmp(locked) < 0 {
-			return "mint-lock-tx"
-		}
 		return "burn-unexplained"
-	default:
-		if locked.Sign() > 0 {
-			return "mint-lock-tx" // stake was recorded as locked but the sum did not drop
-		}
 	}
 	return ""
 }
@@ -510,6 +519,7 @@ func searchCorpus(w *World, found map[string]bool) int {
 			for _, q := range qs {
 				if q.isCt {
 					q.mayBurn = ctMayBurn(w, q)
+					q.canUnstake = ctHas(w, q, "ustk")
 				}
 			}
 			res := w.Exec()
@@ -518,11 +528,11 @@ func searchCorpus(w *World, found map[string]bool) int {
 				block = nil
 				continue
 			}
-			d := new(big.Int).Sub(res.After, res.Before)
+			d := new(big.Int).Sub(res.WAfter, res.WBefore)
 			key := classify(qs, res)
 			if key != "" && !found[key] {
 				found[key] = true
-				f := Found{Key: key, Desc: fmt.Sprintf("corpus %s: sum of all balances changed by %s wei over one block (%s): %s",
+				f := Found{Key: key, Desc: fmt.Sprintf("corpus %s: balances+escrow+stake changed by %s wei over one block (%s): %s",
 					filepath.Base(p), d.String(), res.Statuses, strings.Join(block, " | ")), Replay: append([]string{}, sofar...)}
 				js, _ := json.Marshal(f)
 				fmt.Println("FOUND " + string(js))
@@ -531,6 +541,16 @@ func searchCorpus(w *World, found map[string]bool) int {
 		}
 	}
 	return n
+}
+
+func ctHas(w *World, q *QTx, kind string) bool {
+	t := strings.Fields(q.line)
+	seen := map[string]bool{}
+	if t[6] != "-" {
+		return w.scriptHas(w.codes[parseAddr(t[6])], kind, seen)
+	}
+	id, _ := strconv.Atoi(t[11])
+	return w.scriptHas(w.inits[id], kind, seen)
 }
 
 func ctMayBurn(w *World, q *QTx) bool {
